@@ -81,7 +81,10 @@ def parse_defs(req):
             cur["fields"].append({"name": t[1], "ty": t[2], "size": int(t[3]), "align": int(t[4]), "uninit": t[5] == "1"})
             cur["pend_add"].append(len(cur["fields"]) - 1)
         elif t[0] == "rm":
-            cur["pend_rm"].append(int(t[1]))
+            if int(t[1]) in cur["pend_add"]:
+                cur["pend_add"].remove(int(t[1]))      # an addition cancelled before the close
+            else:
+                cur["pend_rm"].append(int(t[1]))
         elif t[0] == "close":
             prev = cur["variants"][-1] if cur["variants"] else []
             if cur["pend_add"] or cur["pend_rm"] or not cur["variants"]:
